@@ -23,21 +23,27 @@ def slug(name):
 def build():
     if 'ok' in _built:
         return _built['ok']
-    from common import REPO
+    from common import REPO, scratch_dir
+    crate = REPLAY_CRATE
     if os.path.realpath(REPO) != '/repo':
-        # the replay crate has a path dependency on /repo: it cannot replay against another tree
-        _built['ok'] = False
-        _built['err'] = 'replay disabled: VERIF_REPO is not /repo'
-        return False
-    lock = os.path.join(REPLAY_CRATE, 'Cargo.lock')
-    rc, out, err, _ = run(['cargo', 'build', '--offline', '--quiet'], cwd=REPLAY_CRATE, timeout=600)
+        # the replay crate has path dependencies on /repo: to run against another tree (seed
+        # experiments) a scratch copy with rewritten paths is built instead
+        import shutil
+        d = scratch_dir('replay')
+        crate = os.path.join(d, 'replay')
+        shutil.copytree(REPLAY_CRATE, crate, ignore=shutil.ignore_patterns('target'))
+        mf = os.path.join(crate, 'Cargo.toml')
+        txt = open(mf).read().replace('"/repo/', '"%s/' % os.path.realpath(REPO))
+        open(mf, 'w').write(txt)
+    _built['crate'] = crate
+    rc, out, err, _ = run(['cargo', 'build', '--offline', '--quiet'], cwd=crate, timeout=900)
     _built['ok'] = (rc == 0)
     _built['err'] = err[-3000:]
     return _built['ok']
 
 
 def binary():
-    return os.path.join(REPLAY_CRATE, 'target', 'debug', 'replay')
+    return os.path.join(_built.get('crate', REPLAY_CRATE), 'target', 'debug', 'replay')
 
 
 _search_cache = {}
